@@ -32,6 +32,17 @@ theorem bridge_bad_include : Generated.ERR_BAD_INCLUDE = bytesOfString "cannot o
   decide +kernel
 theorem bridge_separator : Generated.FILE_SEPARATOR = [47] := by decide
 
+/-- The include machinery of the compiled scanner is the catalogued one: the translator
+re-reads the `case N:` bodies of lib/scanner.c on every run; the `@include` rule (start of a
+line only) switches to the INCLUDE start condition, the closing quote there runs the
+directive action, and the `<<EOF>>` action shared by all start conditions (next file of the
+frame, else pop, else end of input) has the catalogued text.  An edited action makes this
+false. -/
+theorem C10_actions :
+    Generated.scanActions.getD 22 .unknown = .begin Generated.SC_INCLUDE ∧
+    Generated.scanActions.getD 27 .unknown = .includeDirective Generated.tokens.error ∧
+    Generated.scanner.eofActionKnown = true := by decide
+
 /-! ### the depth limit -/
 
 /-- **Depth limit, refusing side.**  An include directive met with 10 frames on the stack
